@@ -843,6 +843,46 @@ func CurrentParked() string {
 // Parking there would let another goroutine run into that mutex, and a mutex
 // wait is invisible to the bubble.
 //
+// shortMutexHeld probes the mutexes the wallet only ever holds for short
+// in-memory sections (the handler's pending-set / tip mutex, the coin store's
+// mutex): on this tree none of them is held across a gate. A goroutine that
+// reaches one of the hand-shake gates with such a mutex locked is not parked
+// there (Sched.Gate): parked, it would keep the mutex while other goroutines
+// run into it, and a mutex wait is invisible to the bubble. Unparked, it goes
+// on to the real blocking operation (the channel hand-shake), and a lock-order
+// inversion between mutex and hand-shake shows up as what it is: nothing
+// enabled, everyone blocked (HangVerdict).
+//
+//go:norace
+func (inst *Instance) shortMutexHeld() bool {
+	if inst.WM == nil {
+		return false
+	}
+	raceOff()
+	defer raceOn()
+	wm := reflect.ValueOf(inst.WM).Elem()
+	for _, fm := range [][2]string{{"ntfnsHandler", "memMtx"}, {"utxoStore", "muUtxo"}} {
+		v := wm.FieldByName(fm[0])
+		if !v.IsValid() || (v.Kind() == reflect.Ptr && v.IsNil()) {
+			continue
+		}
+		if v.Kind() == reflect.Ptr {
+			v = v.Elem()
+		}
+		f := v.FieldByName(fm[1])
+		if !f.IsValid() {
+			continue
+		}
+		m := (*sync.Mutex)(unsafe.Pointer(f.UnsafeAddr()))
+		if m.TryLock() {
+			m.Unlock()
+			continue
+		}
+		return true
+	}
+	return false
+}
+
 //go:norace
 func (inst *Instance) walletMutexHeld() bool {
 	if inst.WM == nil {
